@@ -25,6 +25,7 @@ type evaluator struct {
 	over  map[ssa.Value]*Val
 	lets  map[string]*Val
 	blk   *ssa.BasicBlock
+	midBlock bool // evaluating a cut inside the block: values already computed in this block are visible
 	owned bool
 }
 
@@ -379,7 +380,7 @@ func (ev *evaluator) local(name string) *Val {
 		if !visible(defBlk) {
 			return
 		}
-		if defBlk == ev.blk && !atHeader {
+		if defBlk == ev.blk && !atHeader && !ev.midBlock {
 			return // defined in the header after the cut point
 		}
 		if _, isConst := v.(*ssa.Const); !isConst {
@@ -393,7 +394,7 @@ func (ev *evaluator) local(name string) *Val {
 		if atHeader {
 			d++
 		}
-		if d > bestDepth {
+		if d > bestDepth || (ev.midBlock && d == bestDepth) {
 			best, bestDepth = v, d
 		}
 	}
